@@ -9,9 +9,11 @@ import (
 	"fmt"
 	"math/rand"
 	"reflect"
+	"runtime"
 	"sort"
 	"strings"
 	"sync"
+	"sync/atomic"
 	"testing"
 	"time"
 	"unsafe"
@@ -54,6 +56,14 @@ type verifCase struct {
 	NfExpire int       `json:"nfexpire"`
 	NNodes   int       `json:"nnodes"`
 	Ops      []verifOp `json:"ops"`
+	// how the cache under test is built: "lit" (struct literals), "new" (cache.New with a Config of nnodes
+	// entries), "newnode" (cache.NewNode); and which options are passed: "both" | "e" | "n" | "none"
+	// (an option that is not passed must leave the package default, which Expire / NfExpire then hold)
+	Ctor string `json:"ctor"`
+	Opts string `json:"opts"`
+	// "abs": frozen wheel, the driver plays the abstract timer; "real": the cleaner runs on a real
+	// collection.TimingWheel (1 s x 300 slots) whose ticker is a fake one ticked by the driver
+	Wheel string `json:"wheel"`
 }
 
 type verifRow struct {
@@ -163,6 +173,139 @@ func verifFreshWheel() {
 	timingWheel = tw
 }
 
+// ---- the cleaner on a real timing wheel with a fake ticker ----
+var (
+	verifFT           timex.FakeTicker
+	verifCur          *verifRun
+	verifCurMu        sync.Mutex
+	verifExecFinished int64
+	verifHold         sync.Mutex
+)
+
+// verifRealWheel installs a 1 s x timingWheelSlots wheel whose ticker is replaced by a fake ticker
+// (collection.newTimingWheelWithClock is unexported: the field is swapped, and one operation through the
+// wheel's loop makes it pick the new channel up).
+func verifRealWheel() {
+	tw, err := collection.NewTimingWheel(time.Second, timingWheelSlots, verifExec)
+	if err != nil {
+		panic(err)
+	}
+	ft := timex.NewFakeTicker()
+	f := reflect.ValueOf(tw).Elem().FieldByName("ticker")
+	p := reflect.NewAt(f.Type(), unsafe.Pointer(f.UnsafeAddr())).Elem()
+	old := p.Interface().(timex.Ticker)
+	p.Set(reflect.ValueOf(ft))
+	tw.RemoveTimer("verif-barrier")
+	old.Stop()
+	verifFT = ft
+	timingWheel = tw
+}
+
+// verifExec is the wheel's execute callback: clean, with the task of a chain seen for the first time
+// wrapped so that every attempt is logged.
+func verifExec(key, val any) {
+	defer atomic.AddInt64(&verifExecFinished, 1)
+	verifHold.Lock() // not before the controller has counted what this tick fired
+	verifHold.Unlock()
+	verifCurMu.Lock()
+	r := verifCur
+	verifCurMu.Unlock()
+	dt, ok := val.(delayTask)
+	if r == nil || !ok {
+		clean(key, val)
+		return
+	}
+	r.mu.Lock()
+	t, seen := r.byKey[key]
+	if !seen {
+		nd := r.place(dt.keys[0])
+		if nd < 0 {
+			nd = 0
+		}
+		t = &verifTask{key: key, node: nd, id: r.nextID[nd]}
+		r.nextID[nd]++
+		armTick := -1
+		if len(r.armTicks) > 0 {
+			armTick = r.armTicks[0]
+			r.armTicks = r.armTicks[1:]
+		}
+		var ks []any
+		for _, k := range dt.keys {
+			ks = append(ks, r.parseKey(k))
+		}
+		r.logs[nd] = append(r.logs[nd], []any{"arm", t.id, armTick, ks})
+		orig := dt.task
+		dt = delayTask{delay: dt.delay, keys: dt.keys, task: func() error {
+			err := orig()
+			r.mu.Lock()
+			r.logs[t.node] = append(r.logs[t.node], []any{"try", t.id, r.tick, err == nil})
+			r.mu.Unlock()
+			return err
+		}}
+		r.byKey[key] = t
+	}
+	r.mu.Unlock()
+	clean(key, dt)
+}
+
+// loopBarrier returns when the wheel's loop has handled everything sent to it before
+func verifLoopBarrier() { timingWheel.RemoveTimer("verif-barrier") }
+
+// one second on the real wheel: Redis time, one tick, and everything the tick sets off
+func (r *verifRun) tickReal() {
+	before := verifWheelSize(timingWheel)
+	for i := 0; i < r.nn; i++ {
+		verifServers[i].s.FastForward(time.Second)
+	}
+	r.flushBreaker()
+	r.mu.Lock()
+	r.tick++
+	r.mu.Unlock()
+	done := atomic.LoadInt64(&verifExecFinished)
+	verifHold.Lock()
+	held := true
+	defer func() {
+		if held {
+			verifHold.Unlock()
+		}
+	}()
+	verifFT.Tick()
+	// the tick sits in the ticker's buffered channel: the wheel's select could take the barrier below first
+	// (both ready, random choice), so wait until the loop has taken the tick
+	deadline := time.Now().Add(5 * time.Second)
+	for len(verifFT.Chan()) > 0 {
+		if time.Now().After(deadline) {
+			r.aborted = true
+			return
+		}
+		runtime.Gosched()
+	}
+	verifLoopBarrier() // onTick has run: fired timers are out of the index, their tasks handed to a goroutine
+	fired := before - verifWheelSize(timingWheel)
+	held = false
+	verifHold.Unlock()
+	deadline = time.Now().Add(5 * time.Second)
+	for atomic.LoadInt64(&verifExecFinished) < done+int64(fired) {
+		if time.Now().After(deadline) {
+			r.aborted = true
+			return
+		}
+		runtime.Gosched()
+	}
+	taskRunner.Schedule(func() {}) // the last clean body has returned (its SetTimer is with the loop)
+	verifLoopBarrier()
+}
+
+// after an operation: timers that appeared are chains armed now
+func (r *verifRun) noteArms(before int) {
+	verifLoopBarrier()
+	for n := verifWheelSize(timingWheel) - before; n > 0; n-- {
+		r.mu.Lock()
+		r.armTicks = append(r.armTicks, r.tick)
+		r.mu.Unlock()
+	}
+}
+
 // number of timers the wheel holds (unexported field collection.TimingWheel.timers)
 func verifWheelSize(tw *collection.TimingWheel) int {
 	f := reflect.ValueOf(tw).Elem().FieldByName("timers")
@@ -208,19 +351,23 @@ type verifTask struct {
 }
 
 type verifRun struct {
-	prefix  string
-	cache   Cache
-	nodes   []node
-	srcs    []*verifSource
-	nn      int
-	disp    *hash.ConsistentHash
-	db      map[int]verifRow
-	dbq     int
-	tick    int
-	pending []*verifTask
-	byKey   map[any]*verifTask
-	nextID  []int
-	logs    [][]any
+	prefix   string
+	cache    Cache
+	nodes    []node
+	srcs     []*verifSource
+	nn       int
+	disp     *hash.ConsistentHash
+	db       map[int]verifRow
+	dbq      int
+	tick     int
+	pending  []*verifTask
+	byKey    map[any]*verifTask
+	nextID   []int
+	logs     [][]any
+	real     bool
+	mu       sync.Mutex
+	armTicks []int
+	aborted  bool
 }
 
 func (r *verifRun) keyName(k []any) string {
@@ -319,6 +466,12 @@ func (r *verifRun) fireDue() {
 }
 
 func (r *verifRun) advance(dt int) {
+	if r.real {
+		for ; dt > 0 && !r.aborted; dt-- {
+			r.tickReal()
+		}
+		return
+	}
 	for dt > 0 {
 		step := dt
 		if len(r.pending) > 0 {
@@ -350,6 +503,8 @@ func verifErr(err error) string {
 		return "ok"
 	case err == errVerifNotFound:
 		return "nf"
+	case errors.Is(err, context.Canceled):
+		return "ctx"
 	case strings.Contains(err.Error(), verifFaultMsg):
 		return "cerr"
 	default:
@@ -404,6 +559,50 @@ func verifRunCase(c verifCase) any {
 		})
 		r.logs[i] = []any{}
 	}
+	if c.Ctor == "new" || c.Ctor == "newnode" {
+		// the cache is built by the package's constructors with the options of the case; the nodes they made
+		// are then taken over as they are, except for the jitter source, which is scripted
+		var opts []Option
+		if c.Opts == "both" || c.Opts == "e" || c.Opts == "" {
+			opts = append(opts, WithExpire(time.Duration(c.Expire)*time.Second))
+		}
+		if c.Opts == "both" || c.Opts == "n" || c.Opts == "" {
+			opts = append(opts, WithNotFoundExpire(time.Duration(c.NfExpire)*time.Second))
+		}
+		var built Cache
+		if c.Ctor == "newnode" {
+			built = NewNode(redis.New(verifServers[0].s.Addr()), barrier, verifStat, errVerifNotFound, opts...)
+		} else {
+			var conf Config
+			for i := 0; i < r.nn; i++ {
+				conf = append(conf, NodeConfig{Config: redis.Config{Host: verifServers[i].s.Addr(), Type: redis.NodeType}, Weight: 100})
+			}
+			built = New(conf, barrier, verifStat, errVerifNotFound, opts...)
+		}
+		found := map[string]node{}
+		switch b := built.(type) {
+		case node:
+			found[b.rds.Addr] = b
+		case cluster:
+			for i := 0; i < 20000 && len(found) < r.nn; i++ {
+				if v, ok := b.dispatcher.Get(fmt.Sprintf("probe-%d", i)); ok {
+					n := v.(node)
+					found[n.rds.Addr] = n
+				}
+			}
+		}
+		for i := 0; i < r.nn; i++ {
+			n, ok := found[verifServers[i].s.Addr()]
+			if !ok {
+				return map[string]any{"error": "constructor did not produce a node for server " + verifServers[i].s.Addr()}
+			}
+			n.unstableExpire = r.nodes[i].unstableExpire
+			r.nodes[i] = n
+		}
+		if _, isCluster := built.(cluster); isCluster != (c.Level == "cluster") {
+			return map[string]any{"error": "constructor returned the wrong kind of cache"}
+		}
+	}
 	if c.Level == "cluster" {
 		r.disp = hash.NewConsistentHash()
 		for _, n := range r.nodes {
@@ -413,6 +612,21 @@ func verifRunCase(c verifCase) any {
 	} else {
 		r.cache = r.nodes[0]
 	}
+	r.real = c.Wheel == "real"
+	timingWheel.Stop()
+	if r.real {
+		verifRealWheel()
+	} else {
+		verifFreshWheel()
+	}
+	verifCurMu.Lock()
+	verifCur = r
+	verifCurMu.Unlock()
+	defer func() {
+		verifCurMu.Lock()
+		verifCur = nil
+		verifCurMu.Unlock()
+	}()
 	ctx := context.Background()
 	var obs []any
 	for _, op := range c.Ops {
@@ -425,6 +639,25 @@ func verifRunCase(c verifCase) any {
 		case "qrow":
 			var row verifRow
 			err := r.cache.TakeCtx(ctx, &row, r.keyName([]any{"pk", float64(op.ID)}), func(v any) error {
+				r.dbq++
+				got, ok := r.db[op.ID]
+				if !ok {
+					return errVerifNotFound
+				}
+				*v.(*verifRow) = got
+				return nil
+			})
+			o["r"] = verifErr(err)
+			if err == nil {
+				o["r"] = "row"
+				o["row"] = []int{row.ID, row.Ix, row.Val}
+			}
+		case "qrowc":
+			// a read issued with a context that is already cancelled
+			cctx, cancel := context.WithCancel(ctx)
+			cancel()
+			var row verifRow
+			err := r.cache.TakeCtx(cctx, &row, r.keyName([]any{"pk", float64(op.ID)}), func(v any) error {
 				r.dbq++
 				got, ok := r.db[op.ID]
 				if !ok {
@@ -460,8 +693,14 @@ func verifRunCase(c verifCase) any {
 			for _, k := range op.Keys {
 				ks = append(ks, r.keyName(k))
 			}
-			o["r"] = verifErr(r.cache.DelCtx(ctx, ks...))
-			r.absorb()
+			if r.real {
+				before := verifWheelSize(timingWheel)
+				o["r"] = verifErr(r.cache.DelCtx(ctx, ks...))
+				r.noteArms(before)
+			} else {
+				o["r"] = verifErr(r.cache.DelCtx(ctx, ks...))
+				r.absorb()
+			}
 		case "set":
 			var val any
 			if op.Val[0].(string) == "row" {
@@ -501,7 +740,9 @@ func verifRunCase(c verifCase) any {
 	}
 	// tasks still waiting are dropped with the case
 	r.pending = nil
-	return map[string]any{"ops": obs, "place": place, "logs": r.logs, "tick": r.tick}
+	r.mu.Lock()
+	defer r.mu.Unlock()
+	return map[string]any{"ops": obs, "place": place, "logs": r.logs, "tick": r.tick, "aborted": r.aborted}
 }
 
 // TestVerifDriver drives cache nodes / a 3-node cluster over miniredis with scripted jitter, faults
